@@ -324,7 +324,7 @@ def typedOp1 (rawCt : String) : List String → String
           -- `ContentType::display` is `HeaderValue::new(name, media type as given)`: the encoder model of C02
           match (if rawCt == "-" then none else ofHex rawCt) with
           | some raw =>
-            let m := str "Content-Type: " ++ HeaderEnc.encodeValue HeaderEnc.opts 12 raw ++ CRLF
+            let m := str "Content-Type: " ++ HeaderEnc.contentTypeValue raw ++ CRLF
             if m == blk then "ok" else s!"MISMATCH content-type model={toHexField m}"
           | none => "BADLINE"
         else "ok"
